@@ -1,8 +1,64 @@
+import RichModel.Model.Markup
 import RichModel.Drv.Proto
-/- Driver handlers for property C04 (stub: filled in when the model is built). -/
+/- Driver handlers for property C04 (markup tokenizer, escape, _parse, render, _emoji_replace). -/
 namespace RichModel.Drv.C04
-open RichModel RichModel.Proto
+open RichModel RichModel.Proto RichModel.Markup
 
-def handlers : List (String × (List String → String)) := []
+/-- `n:key>val,key>val` with code-point strings -/
+def decTable (s : String) : List (List Char × List Char) :=
+  match s.splitOn ":" with
+  | [n, body] =>
+    if n == "0" then [] else (body.splitOn ",").filterMap (fun kv =>
+      match kv.splitOn ">" with
+      | [k, v] => some (decStr k, decStr v)
+      | _ => none)
+  | _ => []
+
+def lookupT (t : List (List Char × List Char)) (k : List Char) : Option (List Char) :=
+  (t.find? (fun p => p.1 == k)).map (·.2)
+
+/-- `Style.normalize` as recorded from the real call; a name the real code never normalized
+answers a string starting with NUL, which no implementation answer contains. -/
+def normT (t : List (List Char × List Char)) (k : List Char) : List Char :=
+  match lookupT t k with
+  | some v => v
+  | none => Char.ofNat 0 :: k
+
+def encSpan (sp : Span) : String :=
+  toString sp.start ++ "," ++ toString sp.stop ++ "," ++ encStr sp.style
+
+def encRendered (r : Except MErr Rendered) : String :=
+  match r with
+  | .ok (plain, spans) => "ok|" ++ encStr plain ++ "|" ++ toString spans.length ++ "|" ++ ";".intercalate (spans.map encSpan)
+  | .error e => "err:MarkupError:" ++ encStr e.message.toList
+
+def encPEv : PEv → String
+  | .text pos s => "T," ++ toString pos ++ "," ++ encStr s
+  | .tag pos t => "G," ++ toString pos ++ "," ++ encStr t.name ++ "," ++
+      (match t.params with | none => "-" | some p => "=" ++ encStr p)
+
+def handlers : List (String × (List String → String)) := [
+  ("mk_isspace", fun a => match a with
+    | [cp] => encBool (pyIsSpace (Char.ofNat (decNat cp)))
+    | _ => "bad-args"),
+  ("mk_escape", fun a => match a with
+    | [s] => encStr (escape (decStr s))
+    | _ => "bad-args"),
+  ("mk_parse", fun a => match a with
+    | [s] => let l := parse (decStr s); toString l.length ++ "#" ++ ";".intercalate (l.map encPEv)
+    | _ => "bad-args"),
+  ("mk_emoji", fun a => match a with
+    | [s, tbl] => encStr (emojiReplace pyIsSpace (lookupT (decTable tbl)) (decStr s))
+    | _ => "bad-args"),
+  ("mk_render", fun a => match a with
+    | [s, emoji, sortFlag, normTbl, emojiTbl] =>
+      let cfg : Cfg := {
+        norm := normT (decTable normTbl),
+        emoji := if decBool emoji then some (lookupT (decTable emojiTbl)) else none,
+        isSpace := pyIsSpace,
+        sortSpans := decBool sortFlag }
+      encRendered (render cfg (decStr s))
+    | _ => "bad-args")
+]
 
 end RichModel.Drv.C04
